@@ -68,10 +68,9 @@ def v1_v2(run, roles):
     V = primitive_view(roles)
     mod, fn = V.mod, V.fn
     evs = find_event_yield(V)
-    if len(evs) != 1:
-        raise AnalysisError(f"C04: {len(evs)} MarshalEvent yields in the primitive walker (expected 1)")
-    y, ev_call = evs[0]
-    # the is_valid() test
+    if not evs:
+        raise AnalysisError("C04: no MarshalEvent yield in the primitive walker")
+    # the is_valid() test(s)
     tests = [n for n in V.cfg.nodes if n.kind == "test" and any(
         isinstance(c, ast.Call) and isinstance(c.func, ast.Attribute) and c.func.attr == "is_valid" for c in ast.walk(n.ast))]
     run.ob("V1", len(tests) >= 1, "primitive walker tests is_valid()", "no `is_valid()` test left in the primitive walker",
@@ -79,17 +78,19 @@ def v1_v2(run, roles):
     if not tests:
         return
     t = tests[0]
-    ynode = V.node_of(y)
-    run.ob("V1", t.id in V.dom[ynode.id], "validity test dominates the event",
-           "some path reaches the field's event without passing the is_valid() test", module=mod, node=y, func=fn.name,
-           construct="event yield [dominated by validity test]")
-    # the receiver of is_valid is the typed value that the event carries
     isv = [c for c in ast.walk(t.ast) if isinstance(c, ast.Call) and isinstance(c.func, ast.Attribute) and c.func.attr == "is_valid"][0]
     recv = isv.func.value
-    ev_val = ev_call.args[2] if len(ev_call.args) >= 3 else kwarg(ev_call, "value")
-    run.ob("V1", norm(recv) == norm(ev_val), "validity is tested on the value the event carries",
-           f"is_valid() is called on `{norm(recv)}` but the event carries `{norm(ev_val) if ev_val is not None else None}`",
-           module=mod, node=t.ast, func=fn.name, construct="is_valid receiver")
+    for y, ev_call in evs:
+        ynode = V.node_of(y)
+        run.ob("V1", any(tt.id in V.dom[ynode.id] for tt in tests), f"validity test dominates the event at L{y.lineno}",
+               "some path reaches the field's event without passing the is_valid() test", module=mod, node=y, func=fn.name,
+               construct="event yield [dominated by validity test]")
+        # the receiver of is_valid is the typed value that the event carries
+        ev_val = ev_call.args[2] if len(ev_call.args) >= 3 else kwarg(ev_call, "value")
+        run.ob("V1", ev_val is not None and norm(recv) == norm(ev_val), f"validity is tested on the value the event at L{y.lineno} carries",
+               f"is_valid() is called on `{norm(recv)}` but the event carries `{norm(ev_val) if ev_val is not None else None}`",
+               module=mod, node=ev_call, func=fn.name, construct="is_valid receiver vs event value")
+    y, ev_call = evs[0]
     # invalid branch: builds the error; strict raise precedes the event
     neg = isinstance(t.ast, ast.UnaryOp) and isinstance(t.ast.op, ast.Not)
     branch = "true" if neg else "false"
@@ -108,7 +109,9 @@ def v1_v2(run, roles):
            "ValueConstraintViolatedError is not built under the `not is_valid()` outcome", module=mod, node=b, func=fn.name,
            construct=VERR + " [branch]")
     raises = [n for n in V.cfg.nodes if n.kind == "stmt" and isinstance(n.ast, ast.Raise)]
-    after = V.reachable_from(y)
+    after = set()
+    for y_, _ in evs:
+        after |= V.reachable_from(y_)
     late = [r for r in raises if r.id in after]
     run.ob("V1", not late, "no raise can follow the field's event", "a raise is reachable after the event of the field was "
            "emitted (strict mode would emit an event for the offending field)", module=mod,
